@@ -302,6 +302,16 @@ def rule_r2(ctx, an: Anchors) -> None:
             rep.unrecognised("C03.R2", f, f.node, f"no store into self.{table}")
             continue
         checks = _conflict_checks(ctx, an, f, table)
+        # a key held in a local that is bound once to a tuple (`key = (t, name)`) is that tuple
+        def _key_tuple(k):
+            if isinstance(k, ast.Name):
+                defs = [x.value for x in walk_own(f.node) if isinstance(x, ast.Assign) and len(x.targets) == 1 and isinstance(x.targets[0], ast.Name) and x.targets[0].id == k.id]
+                stores_k = sum(1 for x in walk_own(f.node) if isinstance(x, ast.Name) and x.id == k.id and isinstance(x.ctx, (ast.Store, ast.Del)))
+                if len(defs) == 1 and stores_k == 1 and isinstance(defs[0], ast.Tuple):
+                    return defs[0]
+            return k
+
+        checks = [(cmp_, _key_tuple(ckey), negated, cloops) for cmp_, ckey, negated, cloops in checks]
         # raise ResourceConflict statements
         raises = [n for n in cfg.live_nodes() if n.kind == "stmt" and isinstance(n.ast, ast.Raise) and n.ast.exc is not None and "ResourceConflict" in ast.unparse(exc_expr(n.ast))]
         if not checks or not raises:
